@@ -3,6 +3,7 @@
 //! a[2] = family constants, a[3] = X limbs, a[4] = loop-count digits (all four ignored
 //! here: they are what `dump` printed, the Coq model consumes them), a[5] = [mode],
 //! a[6].. = operands.  Law ops: a[1].. = scalars.
+//! `dump` prints, per family, the four lists a[1..4] the Coq model consumes (layout: coq/C06/Run.v).
 //! No oracle logic: every op calls the public pairing API and prints what it returns
 //! (target-field elements as base-prime-field coordinates, or the truth value of a
 //! relation evaluated with the public operators of `PairingOutput`).
@@ -10,9 +11,9 @@
 use ark_ec::{
     bls12::{Bls12Config, G2Prepared as BlsG2Prepared},
     bn::{BnConfig, G2Prepared as BnG2Prepared},
-    bw6::BW6Config,
-    mnt4::MNT4Config,
-    mnt6::MNT6Config,
+    bw6::{BW6Config, G2Prepared as Bw6G2Prepared},
+    mnt4::{G1Prepared as Mnt4G1Prepared, G2Prepared as Mnt4G2Prepared, MNT4Config},
+    mnt6::{G1Prepared as Mnt6G1Prepared, G2Prepared as Mnt6G2Prepared, MNT6Config},
     pairing::{prepare_g1, prepare_g2, MillerLoopOutput, Pairing, PairingOutput},
     short_weierstrass::{Affine, Projective, SWCurveConfig},
     AffineRepr, CurveGroup, PrimeGroup,
@@ -278,6 +279,108 @@ fn bn_prepare<P: BnConfig>(a: &[Arg]) -> Vec<Arg> {
     ok(vec![b(pr.infinity), vec![from_u64(pr.ell_coeffs.len() as u64)], coeffs3(&pr.ell_coeffs)])
 }
 
+// ---------------------------------------------------------------- MNT4 / MNT6 / BW6
+fn tower4<P4: ark_ff::Fp4Config>() -> Arg {
+    use ark_ff::Fp2Config;
+    let mut r: Arg = vec![bi(modulus::<<P4::Fp2Config as Fp2Config>::Fp>())];
+    r.extend(co(&<P4::Fp2Config as Fp2Config>::NONRESIDUE));
+    r.extend(cos(<P4::Fp2Config as Fp2Config>::FROBENIUS_COEFF_FP2_C1));
+    r.extend(co(&P4::NONRESIDUE));
+    r.extend(cos(P4::FROBENIUS_COEFF_FP4_C1));
+    r
+}
+fn tower6b<P6: ark_ff::fp6_2over3::Fp6Config>() -> Arg {
+    use ark_ff::Fp3Config;
+    let mut r: Arg = vec![bi(modulus::<<P6::Fp3Config as Fp3Config>::Fp>())];
+    r.extend(co(&<P6::Fp3Config as Fp3Config>::NONRESIDUE));
+    r.extend(cos(<P6::Fp3Config as Fp3Config>::FROBENIUS_COEFF_FP3_C1));
+    r.extend(cos(<P6::Fp3Config as Fp3Config>::FROBENIUS_COEFF_FP3_C2));
+    r.extend(co(&P6::NONRESIDUE));
+    r.extend(cos(P6::FROBENIUS_COEFF_FP6_C1));
+    r
+}
+fn dump_mnt4<P: MNT4Config>() -> Vec<Arg> {
+    let mut fam = vec![from_bool(P::ATE_IS_LOOP_COUNT_NEG), from_bool(P::FINAL_EXPONENT_LAST_CHUNK_W0_IS_NEG)];
+    fam.extend(co(&P::TWIST));
+    fam.extend(co(&P::TWIST_COEFF_A));
+    let mut w = limbs_arg(P::FINAL_EXPONENT_LAST_CHUNK_1.as_ref());
+    w.extend(limbs_arg(P::FINAL_EXPONENT_LAST_CHUNK_ABS_OF_W0.as_ref()));
+    vec![tower4::<P::Fp4Config>(), fam, w, i8s(P::ATE_LOOP_COUNT)]
+}
+fn dump_mnt6<P: MNT6Config>() -> Vec<Arg> {
+    let mut fam = vec![from_bool(P::ATE_IS_LOOP_COUNT_NEG), from_bool(P::FINAL_EXPONENT_LAST_CHUNK_W0_IS_NEG)];
+    fam.extend(co(&P::TWIST));
+    fam.extend(co(&P::TWIST_COEFF_A));
+    let mut w = limbs_arg(P::FINAL_EXPONENT_LAST_CHUNK_1.as_ref());
+    w.extend(limbs_arg(P::FINAL_EXPONENT_LAST_CHUNK_ABS_OF_W0.as_ref()));
+    vec![tower6b::<P::Fp6Config>(), fam, w, i8s(P::ATE_LOOP_COUNT)]
+}
+fn dump_bw6<P: BW6Config>() -> Vec<Arg> {
+    let tw = matches!(P::TWIST_TYPE, ark_ec::bw6::TwistType::D) as u64;
+    let mut fam = vec![
+        from_u64(tw),
+        from_bool(P::X_IS_NEGATIVE),
+        from_bool(P::ATE_LOOP_COUNT_1_IS_NEGATIVE),
+        from_bool(P::ATE_LOOP_COUNT_2_IS_NEGATIVE),
+        from_bool(P::T_MOD_R_IS_ZERO),
+        from_i64(P::H_T),
+        from_i64(P::H_Y),
+    ];
+    fam.extend(co(&<P::G2Config as SWCurveConfig>::COEFF_B));
+    let x = limbs_arg(P::X.as_ref());
+    let mut xs = vec![from_u64(x.len() as u64)];
+    xs.extend(x);
+    xs.extend(limbs_arg(P::X_MINUS_1_DIV_3.as_ref()));
+    xs.extend(limbs_arg(P::ATE_LOOP_COUNT_1));
+    vec![tower6b::<P::Fp6Config>(), fam, xs, i8s(P::ATE_LOOP_COUNT_2)]
+}
+fn lens(a: usize, b: usize) -> Arg {
+    vec![from_u64(a as u64), from_u64(b as u64)]
+}
+fn mnt4_prepare<P: MNT4Config>(a: &[Arg]) -> Vec<Arg> {
+    let pr = Mnt4G2Prepared::<P>::from(aff::<P::G2Config>(&a[6]));
+    let dc: Arg = pr.double_coefficients.iter().flat_map(|c| cos(&[c.c_h, c.c_4c, c.c_j, c.c_l])).collect();
+    let ac: Arg = pr.addition_coefficients.iter().flat_map(|c| cos(&[c.c_l1, c.c_rz])).collect();
+    ok(vec![
+        cos(&[pr.x, pr.y, pr.x_over_twist, pr.y_over_twist]),
+        lens(pr.double_coefficients.len(), pr.addition_coefficients.len()),
+        dc,
+        ac,
+    ])
+}
+fn mnt6_prepare<P: MNT6Config>(a: &[Arg]) -> Vec<Arg> {
+    let pr = Mnt6G2Prepared::<P>::from(aff::<P::G2Config>(&a[6]));
+    let dc: Arg = pr.double_coefficients.iter().flat_map(|c| cos(&[c.c_h, c.c_4c, c.c_j, c.c_l])).collect();
+    let ac: Arg = pr.addition_coefficients.iter().flat_map(|c| cos(&[c.c_l1, c.c_rz])).collect();
+    ok(vec![
+        cos(&[pr.x, pr.y, pr.x_over_twist, pr.y_over_twist]),
+        lens(pr.double_coefficients.len(), pr.addition_coefficients.len()),
+        dc,
+        ac,
+    ])
+}
+fn mnt4_g1_prepare<P: MNT4Config>(a: &[Arg]) -> Vec<Arg> {
+    let pr = Mnt4G1Prepared::<P>::from(aff::<P::G1Config>(&a[6]));
+    let mut r = cos(&[pr.x, pr.y]);
+    r.extend(cos(&[pr.x_twist, pr.y_twist]));
+    ok(vec![r])
+}
+fn mnt6_g1_prepare<P: MNT6Config>(a: &[Arg]) -> Vec<Arg> {
+    let pr = Mnt6G1Prepared::<P>::from(aff::<P::G1Config>(&a[6]));
+    let mut r = cos(&[pr.x, pr.y]);
+    r.extend(cos(&[pr.x_twist, pr.y_twist]));
+    ok(vec![r])
+}
+fn bw6_prepare<P: BW6Config>(a: &[Arg]) -> Vec<Arg> {
+    let pr = Bw6G2Prepared::<P>::from(aff::<P::G2Config>(&a[6]));
+    ok(vec![
+        b(pr.infinity),
+        lens(pr.ell_coeffs_1.len(), pr.ell_coeffs_2.len()),
+        coeffs3(&pr.ell_coeffs_1),
+        coeffs3(&pr.ell_coeffs_2),
+    ])
+}
+
 macro_rules! engine {
     ($op:expr, $a:expr, $E:ty, $C1:ty, $C2:ty, $fam:ident, $P:ty) => {{
         if let Some(r) = law_ops::<$E>($op, $a) {
@@ -287,21 +390,29 @@ macro_rules! engine {
             return r;
         }
         match ($op, stringify!($fam)) {
-            ("dump", "bls") | ("dump", "bn") | ("dump", "other") => {
+            ("dump", _) => {
                 let mut v = dump_curve::<$E, $C1, $C2>();
                 v.extend(engine!(@famdump $fam, $P));
                 ok(v)
             },
             ("g2_prepare", _) => engine!(@prep $fam, $P, $a),
+            ("g1_prepare", _) => engine!(@prep1 $fam, $P, $a),
             _ => unsupported(),
         }
     }};
     (@famdump bls, $P:ty) => { dump_bls::<$P>() };
     (@famdump bn, $P:ty) => { dump_bn::<$P>() };
-    (@famdump other, $P:ty) => { Vec::<Arg>::new() };
+    (@famdump mnt4, $P:ty) => { dump_mnt4::<$P>() };
+    (@famdump mnt6, $P:ty) => { dump_mnt6::<$P>() };
+    (@famdump bw6, $P:ty) => { dump_bw6::<$P>() };
     (@prep bls, $P:ty, $a:expr) => { bls_prepare::<$P>($a) };
     (@prep bn, $P:ty, $a:expr) => { bn_prepare::<$P>($a) };
-    (@prep other, $P:ty, $a:expr) => { unsupported() };
+    (@prep mnt4, $P:ty, $a:expr) => { mnt4_prepare::<$P>($a) };
+    (@prep mnt6, $P:ty, $a:expr) => { mnt6_prepare::<$P>($a) };
+    (@prep bw6, $P:ty, $a:expr) => { bw6_prepare::<$P>($a) };
+    (@prep1 mnt4, $P:ty, $a:expr) => { mnt4_g1_prepare::<$P>($a) };
+    (@prep1 mnt6, $P:ty, $a:expr) => { mnt6_g1_prepare::<$P>($a) };
+    (@prep1 $other:ident, $P:ty, $a:expr) => { unsupported() };
 }
 
 fn run(op: &str, a: &[Arg]) -> Vec<Arg> {
@@ -310,12 +421,12 @@ fn run(op: &str, a: &[Arg]) -> Vec<Arg> {
         0 => engine!(op, a, ark_bls12_381::Bls12_381, ark_bls12_381::g1::Config, ark_bls12_381::g2::Config, bls, ark_bls12_381::Config),
         1 => engine!(op, a, ark_bls12_377::Bls12_377, ark_bls12_377::g1::Config, ark_bls12_377::g2::Config, bls, ark_bls12_377::Config),
         2 => engine!(op, a, ark_bn254::Bn254, ark_bn254::g1::Config, ark_bn254::g2::Config, bn, ark_bn254::Config),
-        3 => engine!(op, a, ark_mnt4_298::MNT4_298, ark_mnt4_298::g1::Config, ark_mnt4_298::g2::Config, other, ark_mnt4_298::Config),
-        4 => engine!(op, a, ark_mnt4_753::MNT4_753, ark_mnt4_753::g1::Config, ark_mnt4_753::g2::Config, other, ark_mnt4_753::Config),
-        5 => engine!(op, a, ark_mnt6_298::MNT6_298, ark_mnt6_298::g1::Config, ark_mnt6_298::g2::Config, other, ark_mnt6_298::Config),
-        6 => engine!(op, a, ark_mnt6_753::MNT6_753, ark_mnt6_753::g1::Config, ark_mnt6_753::g2::Config, other, ark_mnt6_753::Config),
-        7 => engine!(op, a, ark_bw6_761::BW6_761, ark_bw6_761::g1::Config, ark_bw6_761::g2::Config, other, ark_bw6_761::Config),
-        8 => engine!(op, a, ark_bw6_767::BW6_767, ark_bw6_767::g1::Config, ark_bw6_767::g2::Config, other, ark_bw6_767::Config),
+        3 => engine!(op, a, ark_mnt4_298::MNT4_298, ark_mnt4_298::g1::Config, ark_mnt4_298::g2::Config, mnt4, ark_mnt4_298::Config),
+        4 => engine!(op, a, ark_mnt4_753::MNT4_753, ark_mnt4_753::g1::Config, ark_mnt4_753::g2::Config, mnt4, ark_mnt4_753::Config),
+        5 => engine!(op, a, ark_mnt6_298::MNT6_298, ark_mnt6_298::g1::Config, ark_mnt6_298::g2::Config, mnt6, ark_mnt6_298::Config),
+        6 => engine!(op, a, ark_mnt6_753::MNT6_753, ark_mnt6_753::g1::Config, ark_mnt6_753::g2::Config, mnt6, ark_mnt6_753::Config),
+        7 => engine!(op, a, ark_bw6_761::BW6_761, ark_bw6_761::g1::Config, ark_bw6_761::g2::Config, bw6, ark_bw6_761::Config),
+        8 => engine!(op, a, ark_bw6_767::BW6_767, ark_bw6_767::g1::Config, ark_bw6_767::g2::Config, bw6, ark_bw6_767::Config),
         10 => engine!(
             op,
             a,
@@ -328,9 +439,6 @@ fn run(op: &str, a: &[Arg]) -> Vec<Arg> {
         _ => unsupported(),
     }
 }
-
-#[allow(dead_code)]
-fn _unused<P4: MNT4Config, P6: MNT6Config, PB: BW6Config>() {}
 
 fn main() {
     main_loop(run);
